@@ -810,6 +810,11 @@ def _eval_bool(ctx, t, env, props=None):
     val = _eval_rat(ctx, t, env)
     if val is not None:
         return bool(val)
+    # truthiness of a sized object whose length is one of the enumerated quantities: bool(x) == (len(x) != 0)
+    for aid, lv in env.items():
+        hd, ar = ctx.atoms[aid]
+        if hd[0] == "call" and hd[1] == "len" and len(ar) == 1 and ctx.eq(ar[0], t):
+            return lv != 0
     if props is None:
         return None
     key, neg = _prop_key(ctx, t)
